@@ -727,3 +727,8 @@ package rlwe
 //@   trusted opaque at the abstract level (the plaintext times the gadget vector is added to the rows: digit arithmetic); the plaintext must be in the NTT domain and in Montgomery form; writes the gadget ciphertexts and the buffer (which may be the plaintext itself)
 //@   requires isntt(pt) && mexp(pt) == 1
 //@   assigns buff
+
+//@ afunc Encryptor.EncryptZero
+//@   trusted at call sites outside this package's own contracts: an encryption of zero into the receiver (verified per receiver kind under encryptZeroSk#ciphertext, encryptZeroSkFromC1(QP), encryptZeroPkNoP); the receiver must be an actual object, not a nil pointer in an interface
+//@   requires !isnil(unbox(ct))
+//@   assigns
